@@ -267,10 +267,23 @@ func ruleC12Finalize(c *ctx.Ctx, r *core.Reporter) {
 			r.Undecided("finalize:"+name, "build/build.go", "not found")
 			continue
 		}
+		// the change flag: the variable tested by the function's last statement, which runs the clean-up
+		flag := ""
+		file := ""
+		if len(fd.Type.Params.List) > 0 && len(fd.Type.Params.List[0].Names) > 0 {
+			file = fd.Type.Params.List[0].Names[0].Name
+		}
+		last := fd.Body.List[len(fd.Body.List)-1]
+		for _, m := range findGoPattern(&ast.BlockStmt{List: []ast.Stmt{last}}, `if µflag { finalizeRemovals(µf); pruneImports(µf) }`) {
+			if m.Env["µf"] == file {
+				flag = m.Env["µflag"]
+			}
+		}
+		r.Check(flag != "", "flag-finalizes:"+name, c.Pos(last.Pos()), name+" ends with `if <flag> { finalizeRemovals(file); pruneImports(file) }`")
 		stores := nilStores(fd)
 		for i, st := range stores {
 			// the flag assignment must sit in a list enclosing the store but inside the function's top-level loop
-			ok := flagAccompanies(fd, st, "anyChange")
+			ok := flagAccompanies(fd, st, flag)
 			r.Check(ok, fmt.Sprintf("mark-sets-flag:%s#%d:%s", name, i, squash(exprStr(st.Lhs[0]))), c.Pos(st.Pos()), fmt.Sprintf("%s = nil is accompanied by anyChange = true on its path (otherwise the nil entry survives into the type checker)", exprStr(st.Lhs[0])))
 		}
 		if len(stores) == 0 {
@@ -279,17 +292,13 @@ func ruleC12Finalize(c *ctx.Ctx, r *core.Reporter) {
 		// replacing a subtree of the file (a receiver, parameter or result list, an expression) drops the
 		// identifiers used in the old subtree just like a removal does, so it needs the same clean-up
 		for i, st := range subtreeStores(c, fd) {
-			ok := flagAccompanies(fd, st, "anyChange")
+			ok := flagAccompanies(fd, st, flag)
 			r.Check(ok, fmt.Sprintf("replace-sets-flag:%s#%d:%s", name, i, squash(exprStr(st.Lhs[0]))), c.Pos(st.Pos()), fmt.Sprintf("%s = … replaces a subtree of the file and is accompanied by anyChange = true on its path (otherwise an import used only in the old subtree is left behind)", exprStr(st.Lhs[0])))
 		}
-		// last statement: if anyChange { finalizeRemovals(file); pruneImports(file) }
-		last := fd.Body.List[len(fd.Body.List)-1]
-		s := squash(nodeString(c, last))
-		r.Check(s == "ifanyChange{finalizeRemovals(file)pruneImports(file)}", "flag-finalizes:"+name, c.Pos(last.Pos()), name+" ends with `if anyChange { finalizeRemovals(file); pruneImports(file) }`")
 		// anyChange declared false at the top and never reset
 		resets := 0
 		ast.Inspect(fd.Body, func(n ast.Node) bool {
-			if as, ok := n.(*ast.AssignStmt); ok && len(as.Lhs) == 1 && exprStr(as.Lhs[0]) == "anyChange" && exprStr(as.Rhs[0]) == "false" && as.Tok.String() == "=" {
+			if as, ok := n.(*ast.AssignStmt); ok && len(as.Lhs) == 1 && exprStr(as.Lhs[0]) == flag && exprStr(as.Rhs[0]) == "false" && as.Tok.String() == "=" {
 				resets++
 			}
 			return true
@@ -380,8 +389,19 @@ func ruleC12Imports(c *ctx.Ctx, r *core.Reporter) {
 		return
 	}
 	s := squash(nodeString(c, pi.Body))
-	r.Check(strings.Contains(s, "ifname:=astutil.ImportName(in);len(name)>0{unused[name]=i}"), "prune:candidates-named-only", c.Pos(pi.Pos()), "only imports with a usable name are candidates")
-	r.Check(strings.Contains(s, "ifsel,ok:=n.(*ast.SelectorExpr);ok{ifid,ok:=sel.X.(*ast.Ident);ok&&id.Obj==nil{delete(unused,id.Name)}}"), "prune:used-by-selector", c.Pos(pi.Pos()), "an import is used if some selector expression has its name as (unresolved) qualifier")
+	candMap := ""
+	for _, m := range findGoPattern(pi.Body, `for µi, µin := range µf.Imports { if µname := astutil.ImportName(µin); len(µname) > 0 { µmap[µname] = µi } }`) {
+		candMap = m.Env["µmap"]
+	}
+	r.Check(candMap != "", "prune:candidates-named-only", c.Pos(pi.Pos()), "only imports with a usable name are candidates")
+	r.Check(func() bool {
+		for _, m := range findGoPattern(pi.Body, `if µsel, µok := µn.(*ast.SelectorExpr); µok { if µid, µok2 := µsel.X.(*ast.Ident); µok2 && µid.Obj == nil { delete(µmap, µid.Name) } }`) {
+			if m.Env["µmap"] == candMap {
+				return true
+			}
+		}
+		return false
+	}(), "prune:used-by-selector", c.Pos(pi.Pos()), "an import is used if some selector expression has its name as (unresolved) qualifier")
 	// directive imports
 	got := map[string]string{}
 	binfo := c.Pkg("build").TypesInfo
@@ -396,7 +416,14 @@ func ruleC12Imports(c *ctx.Ctx, r *core.Reporter) {
 		return true
 	})
 	r.Check(got["unsafe"] == "//go:linkname " && got["embed"] == "//go:embed ", "prune:directive-imports", c.Pos(pi.Pos()), fmt.Sprintf("unsafe is kept (as _) when the file has a //go:linkname directive, embed when it has //go:embed (table: %v)", got))
-	r.Check(strings.Contains(s, "in.Name=ast.NewIdent(`_`)delete(unused,name)"), "prune:directive-import-blanked", c.Pos(pi.Pos()), "a directive-only import is turned into a blank import instead of being removed")
+	r.Check(func() bool {
+		for _, m := range findGoPattern(pi.Body, "µin.Name = ast.NewIdent(`_`); delete(µmap, µname)") {
+			if m.Env["µmap"] == candMap {
+				return true
+			}
+		}
+		return false
+	}(), "prune:directive-import-blanked", c.Pos(pi.Pos()), "a directive-only import is turned into a blank import instead of being removed")
 	// the all-imports wipe happens only for files without any other declaration and without linkname directives
 	r.Check(strings.Contains(s, "ifisOnlyImports(file)&&!astutil.HasDirectivePrefix(file,`//go:linkname`)") || strings.Contains(s, "ifisOnlyImports(file)&&!astutil.HasDirectivePrefix(file,`//go:linkname`){file.Imports=nilfile.Decls=nilreturn}"), "prune:empty-file-only", c.Pos(pi.Pos()), "all imports (including blank and dot) are dropped only from a file that has nothing but imports and no linkname directive")
 }
